@@ -99,6 +99,10 @@ class Driver:
             ops.append(('save',))
         return ops
 
+    def _ix(self, i):
+        # batch indices as the caller's loop produces them: Python ints, or NumPy integers (np.arange, len arithmetic)
+        return np.int64(i) if self.cfg.get('idx') == 'npint' else i
+
     def apply(self, op):
         cfg = self.cfg
         npy = cfg['store'] == 'npy'
@@ -108,25 +112,25 @@ class Driver:
             v = self._ver(n)
             arr = batch_value(cfg, n, v)
             if npy:
-                self.s[n] = arr
+                self.s[self._ix(n)] = arr
             else:
-                self.pool.add_batch({'x': arr}, n)
+                self.pool.add_batch({'x': arr}, self._ix(n))
             self.ref.append(v)
         elif k == 'overwrite':
             i = op[1]
             v = self._ver(i)
             if v == self.ref[i]:
                 v = self._ver(i)
-            self.store()[i] = batch_value(cfg, i, v)
+            self.store()[self._ix(i)] = batch_value(cfg, i, v)
             self.ref[i] = v
         elif k == 'readd':      # OutputPool.add_batch never replaces an existing batch
             i = op[1]
-            self.pool.add_batch({'x': batch_value(cfg, i, (self.ref[i] + 1) % 3)}, i)
+            self.pool.add_batch({'x': batch_value(cfg, i, (self.ref[i] + 1) % 3)}, self._ix(i))
         elif k == 'delete_last':
             if npy:
-                del self.s[n - 1]
+                del self.s[self._ix(n - 1)]
             else:
-                self.pool.remove_batch(n - 1)
+                self.pool.remove_batch(self._ix(n - 1))
             self.ref.pop()
         elif k == 'clear':
             if npy:
@@ -408,12 +412,15 @@ def run(ctx):
         big = [(st_, row, bs) for st_ in ('npy', 'pool') for row in (0, 2) for bs in (5, 50)]
     for st_, row, bs in big:
         cfgs.append({'store': st_, 'dtype': 'f8', 'row': row, 'bs': bs})
+    # batch indices given as NumPy integers
+    for st_, row, bs in ([('npy', 0, 2), ('pool', 2, 1)] if q else [('npy', 0, 2), ('pool', 2, 1), ('npy', 2, 1), ('pool', 0, 2)]):
+        cfgs.append({'store': st_, 'dtype': 'f8', 'row': row, 'bs': bs, 'idx': 'npint'})
     cases = []
     for cfg in cfgs:
         d = depth
-        if not q and (cfg['bs'] > 2 or not (cfg['dtype'] == 'f8' or (cfg['row'] == 0 and cfg['bs'] == 2))):
+        if not q and (cfg['bs'] > 2 or cfg.get('idx') or not (cfg['dtype'] == 'f8' or (cfg['row'] == 0 and cfg['bs'] == 2))):
             d = depth - 1     # the deepest level only for a sub-family of configurations (stated in evidence)
-        if q and cfg['dtype'] == 'f8' and (cfg['store'], cfg['row'], cfg['bs']) in (('npy', 0, 1), ('pool', 2, 2)):
+        if q and cfg['dtype'] == 'f8' and not cfg.get('idx') and (cfg['store'], cfg['row'], cfg['bs']) in (('npy', 0, 1), ('pool', 2, 2)):
             d = depth + 1     # one level deeper for two configurations: flush, append, read, overwrite, kill needs it
         cases.append({'kind': 'config', 'cfg': cfg, 'depth': d, 'validate_depth': 2 if q else 3})
     res = []
@@ -440,7 +447,8 @@ def run(ctx):
     ctx.rule = ('histories: every operation sequence up to depth %d (first op is the initialising append; quick: one level deeper for two float64 configurations; thorough: one level less outside a sub-family) over '
                 '{append, overwrite(first|last), delete-last, clear, flush, close+reopen, read-all, pickle round trip | pool: '
                 're-add, save} per store configuration (NpyStore|ArrayPool store x dtype x row shape x batch_size 1, 2, plus '
-                'float64 configurations with batch_size 5 and 50, where the row count grows a decimal digit); '
+                'float64 configurations with batch_size 5 and 50, where the row count grows a decimal digit, and configurations '
+                'whose batch indices are NumPy integers); '
                 'crash images: one per raw file operation (write/truncate/memmap store) of the last operation of every '
                 'history, judged when a flush completed before it; evaluations = histories + crash images; all distinct '
                 'by construction' % depth)
